@@ -54,7 +54,7 @@ def discr_switches(fn, terms, place_pred, ty_prefix=None):
         r = M.switch_operand_def(fn, bb)
         if r is None or r["k"] != "discr":
             continue
-        if ty_prefix is not None and not r["p"]["ty"].startswith(ty_prefix):
+        if ty_prefix is not None and not (r["p"].get("ty") or "").startswith(ty_prefix):
             continue
         if place_pred(terms.place(r["p"])):
             out.append((bb, fn.blocks[bb]["term"]))
